@@ -143,6 +143,132 @@ def start_registers(rel, clsname):
     return False
 
 
+def update_returns_value(rel, clsname):
+    """does <clsname>.update(self, v, where) hand its first argument on to the next callback of the Deferred?
+    True: every `return` returns that parameter and the body cannot fall off the end; False: it returns None
+    (bare return / falls off the end) on every path; anything else is not translated."""
+    for r, cls in ast_class_chain(rel, clsname):
+        for st in cls.body:
+            if isinstance(st, ast.FunctionDef) and st.name == "update":
+                a = st.args
+                if len(a.args) != 3 or a.vararg or a.kwarg or a.kwonlyargs or a.defaults or a.args[0].arg != "self":
+                    raise P.Untranslatable("%s.update: unexpected parameters" % cls.name)
+                v = a.args[1].arg
+                for n in ast.walk(st):
+                    if isinstance(n, (ast.Assign, ast.AugAssign, ast.AnnAssign)):
+                        tg = n.targets if isinstance(n, ast.Assign) else [n.target]
+                        if any(isinstance(t, ast.Name) and t.id == v for t in tg):
+                            raise P.Untranslatable("%s.update rebinds its value parameter" % cls.name)
+                    if isinstance(n, (ast.Try, ast.While, ast.For, ast.With, ast.Yield, ast.YieldFrom, ast.Lambda)) or \
+                            (isinstance(n, ast.FunctionDef) and n is not st):
+                        raise P.Untranslatable("%s.update: control flow the translator does not follow" % cls.name)
+                rets = [n for n in ast.walk(st) if isinstance(n, ast.Return)]
+                kinds = set()
+                for rt in rets:
+                    if rt.value is None or (isinstance(rt.value, ast.Constant) and rt.value.value is None):
+                        kinds.add(False)
+                    elif isinstance(rt.value, ast.Name) and rt.value.id == v:
+                        kinds.add(True)
+                    else:
+                        raise P.Untranslatable("%s.update returns %s" % (cls.name, ast.unparse(rt.value)))
+
+                def falls_off(body):
+                    last = body[-1]
+                    if isinstance(last, (ast.Return, ast.Raise)):
+                        return False
+                    if isinstance(last, ast.If):
+                        return (not last.orelse) or falls_off(last.body) or falls_off(last.orelse)
+                    return True
+                if falls_off(st.body):
+                    kinds.add(False)
+                if kinds == {True}:
+                    return True
+                if kinds == {False}:
+                    return False
+                raise P.Untranslatable("%s.update returns its argument on some paths only" % cls.name)
+    raise P.Untranslatable("%s has no update method" % clsname)
+
+
+def start_registers_deferred(rel, clsname):
+    """is the object that <clsname>.start registers a fresh Deferred kept in self.deferred (True) or the container (False)?"""
+    for r, cls in ast_class_chain(rel, clsname):
+        for st in cls.body:
+            if isinstance(st, ast.FunctionDef) and st.name == "start":
+                calls = [n for n in ast.walk(st) if isinstance(n, ast.Call) and ast.unparse(n.func) == "self.protocol.setObject"]
+                if len(calls) != 1:
+                    raise P.Untranslatable("%s.start: expected one setObject call" % cls.name)
+                arg = ast.unparse(calls[0].args[1])
+                assigns = {ast.unparse(n.targets[0]): ast.unparse(n.value) for n in ast.walk(st)
+                           if isinstance(n, ast.Assign) and len(n.targets) == 1}
+                if arg == "self.deferred" and assigns.get("self.deferred") in ("Deferred()", "defer.Deferred()"):
+                    return True
+                if arg in ("self.list", "self.set", "self.d") and assigns.get(arg) in ("[]", "set()", "{}"):
+                    return False
+                raise P.Untranslatable("%s.start registers %s = %r" % (cls.name, arg, assigns.get(arg)))
+    raise P.Untranslatable("%s has no start method" % clsname)
+
+
+def pending_completion_facts():
+    out = []
+    for nm, rel, cls in (("list", "slicers/list.py", "ListUnslicer"), ("set", "slicers/set.py", "SetUnslicer"),
+                         ("dict", "slicers/dict.py", "DictUnslicer"), ("tuple", "slicers/tuple.py", "TupleUnslicer")):
+        out.append("Definition upd_ret_%s : bool := %s.  (* %s.update returns the value it was called with (Deferred callback chain) *)"
+                   % (nm, cbool(update_returns_value(rel, cls)), cls))
+    fz = P.find_class(P.load("slicers/set.py"), "FrozenSetUnslicer")
+    if any(isinstance(d, ast.FunctionDef) and d.name in ("update", "start", "receiveChild", "complete", "checkComplete") for d in fz.body):
+        raise P.Untranslatable("FrozenSetUnslicer overrides part of TupleUnslicer's completion machinery")
+    if [ast.unparse(b) for b in fz.bases] != ["TupleUnslicer"]:
+        raise P.Untranslatable("FrozenSetUnslicer is no longer a TupleUnslicer")
+    for nm, rel, cls, want in (("list", "slicers/list.py", "ListUnslicer", False), ("set", "slicers/set.py", "SetUnslicer", False),
+                               ("dict", "slicers/dict.py", "DictUnslicer", False), ("tuple", "slicers/tuple.py", "TupleUnslicer", True),
+                               ("copyable", "copyable.py", "RemoteCopyUnslicer", True)):
+        got = start_registers_deferred(rel, cls)
+        out.append("Definition defers_%s : bool := %s.  (* %s.start registers a Deferred (True) / the container itself (False) *)"
+                   % (nm, cbool(got), cls))
+    T = "slicers/tuple.py"
+    require(body_src(P.find_def(P.load(T), "TupleUnslicer.receiveChild")),
+            ["obj.addCallback(self.update, len(self.list))", "self.num_unreferenceable_children += 1", "self.list.append('placeholder')"],
+            "TupleUnslicer.receiveChild")
+    require(body_src(P.find_def(P.load(T), "TupleUnslicer.update")),
+            ["self.list[index] = obj", "self.num_unreferenceable_children -= 1", "if self.finished:\n    self.checkComplete()"],
+            "TupleUnslicer.update")
+    require(body_src(P.find_def(P.load(T), "TupleUnslicer.checkComplete")),
+            ["if self.num_unreferenceable_children:", "return self.complete()"], "TupleUnslicer.checkComplete")
+    rc = body_src(P.find_def(P.load(T), "TupleUnslicer.receiveClose"))
+    require(rc, ["if self.num_unreferenceable_children:", "return (self.deferred, ready_deferred)", "return self.complete()"],
+            "TupleUnslicer.receiveClose")
+    if "self.finished = 1" not in rc and "self.finished = True" not in rc:
+        raise P.Untranslatable("TupleUnslicer.receiveClose no longer sets self.finished")
+    cp = body_src(P.find_def(P.load(T), "TupleUnslicer.complete"))
+    if not (cp.index("t = tuple(self.list)") < cp.index("self.protocol.setObject(self.count, t)") < cp.index("self.deferred.callback(t)")):
+        raise P.Untranslatable("TupleUnslicer.complete: tuple(self.list) / setObject / callback are no longer in this order")
+    require(body_src(P.find_def(P.load("slicers/list.py"), "ListUnslicer.receiveChild")),
+            ["obj.addCallback(self.update, len(self.list))", "self.list.append(placeholder)"], "ListUnslicer.receiveChild")
+    require(body_src(P.find_def(P.load("slicers/list.py"), "ListUnslicer.update")), ["self.list[index] = obj"], "ListUnslicer.update")
+    require(body_src(P.find_def(P.load("slicers/set.py"), "SetUnslicer.receiveChild")),
+            ["placeholder = _Placeholder()", "obj.addCallback(self.update, placeholder)", "self.set.add(placeholder)"], "SetUnslicer.receiveChild")
+    require(body_src(P.find_def(P.load("slicers/set.py"), "SetUnslicer.update")),
+            ["self.set.remove(placeholder)", "self.set.add(obj)"], "SetUnslicer.update")
+    require(body_src(P.find_def(P.load("slicers/dict.py"), "DictUnslicer.receiveKey")),
+            ["if isinstance(key, Deferred):\n    raise BananaError("], "DictUnslicer.receiveKey")
+    require(body_src(P.find_def(P.load("slicers/dict.py"), "DictUnslicer.receiveValue")),
+            ["value.addCallback(self.update, self.key)"], "DictUnslicer.receiveValue")
+    require(body_src(P.find_def(P.load("slicers/dict.py"), "DictUnslicer.update")), ["self.d[key] = value"], "DictUnslicer.update")
+    rcc = P.find_def(P.load("copyable.py"), "RemoteCopyUnslicer.receiveChild")
+    first = [s for s in rcc.body if not (isinstance(s, ast.Expr) and isinstance(s.value, ast.Constant))][0]
+    if ast.unparse(first) != "assert not isinstance(obj, defer.Deferred)":
+        raise P.Untranslatable("RemoteCopyUnslicer.receiveChild no longer starts by refusing a Deferred")
+    rcl = body_src(P.find_def(P.load("copyable.py"), "RemoteCopyUnslicer.receiveClose"))
+    if not (rcl.index("self.protocol.setObject(self.count, obj)") < rcl.index("self.deferred.callback(obj)")):
+        raise P.Untranslatable("RemoteCopyUnslicer.receiveClose: setObject / callback order")
+    rrc = P.find_def(P.load("slicers/root.py"), "RootUnslicer.receiveChild")
+    first = [s for s in rrc.body if not (isinstance(s, ast.Expr) and isinstance(s.value, ast.Constant))][0]
+    if ast.unparse(first) != "assert not isinstance(obj, Deferred)":
+        raise P.Untranslatable("RootUnslicer.receiveChild no longer starts by refusing a Deferred")
+    out.append("Definition pending_shape_checked : bool := true.  (* placeholders, update callbacks, num_unreferenceable_children, complete() order *)")
+    return out
+
+
 def read_registry_scan():
     """the statements of RootUnslicer.open after the 'copyable' branch: form (A) or form (B) of the module docstring"""
     rootmod = P.load("slicers/root.py")
@@ -385,6 +511,9 @@ def generate():
             ["attrname = six.ensure_str(obj)", "self.setAttribute(self.attrname, obj)", "self.attrname = None"],
             "RemoteCopyUnslicer.receiveChild")
 
+    # ---------------------------------------------------------------- pending completion (Deferred placeholders)
+    out.extend(pending_completion_facts())
+
     # ---------------------------------------------------------------- BaseSlicer.slice / push / pop / counters / scopes
     sm = P.load("slicer.py")
     bs = body_src(P.find_def(sm, "BaseSlicer.slice"))
@@ -453,7 +582,14 @@ def generate():
     sf = body_src(P.find_def(sm, "ScopedSlicer.slicerForObject"))
     want = ("obj_refid = self.references.get(id(obj), None)\nif obj_refid is not None:\n    return ReferenceSlicer(obj_refid[1])\n"
             "return self.parent.slicerForObject(obj)")
-    if norm(sf) != norm(want):
+    # accepted alternative (guard-clause form), equivalent for ALL inputs: dict.get(k) == dict.get(k, None); `x is None` /
+    # `x is not None` are identity tests on a local (no user code runs) selecting the same two continuations; the entry is
+    # indexed with [1] exactly once in both forms and handed to ReferenceSlicer unchanged
+    import re as _re
+    alt = _re.compile(r"^(\w+) = self\.references\.get\(id\(obj\)(?:, None)?\)\nif \1 is None:\n    return self\.parent\.slicerForObject\(obj\)\n"
+                      r"(?:(\w+) = \1\[1\]\nreturn ReferenceSlicer\(\2\)|return ReferenceSlicer\(\1\[1\]\))$")
+    m_alt = alt.match(norm(sf))
+    if norm(sf) != norm(want) and not (m_alt and m_alt.group(1) not in ("obj", "self") and m_alt.group(2) not in ("obj", "self", m_alt.group(1))):
         raise P.Untranslatable("ScopedSlicer.slicerForObject changed: " + sf)
     si = body_src(P.find_def(sm, "ScopedSlicer.__init__"))
     require(si, ["self.references = {}"], "ScopedSlicer.__init__")
